@@ -29,7 +29,8 @@ TCall ==
   /\ l <= TraceLen /\ Ev.e # "Reset"
   /\ Dispatch
   /\ last'.out = Ev.out /\ last'.val = Ev.val
-  /\ (Ev.out = "dl_exception" => Ev.diag)
+  /\ (Ev.out = "dl_exception" => Ev.diag)      \* the loader's diagnostic of *this* failure: non-empty, names what was asked
+                                               \* for, and stays what it was whatever the loader is asked afterwards
   /\ \A h \in 1..NH : holder'[h].kind = Ev.kinds[h]
   /\ Ev.l1o = OpensOf(inst', "L1") /\ Ev.l1c = ClosesOf(inst', "L1")
   /\ Ev.l2o = OpensOf(inst', "L2") /\ Ev.l2c = ClosesOf(inst', "L2")
